@@ -362,6 +362,7 @@ func lemmaTypedGettersAgreeOnFound(st *SlimTrie, key string) (bool, bool, bool, 
 //@   requires path == nil
 //@   loop 1 invariant 0 <= idx && int(idx) < nN(st) && qr != nil
 //@   loop 1 decreases nN(st) - int(idx)
+//@   loop 1 preserves E.Int
 //@   after getNode#1 use at(qr.ithInner, idx)
 //@   after getNode#1 assert qr.isInner == 1 ==> rank1(INW(st), qr.from) >= int(idx) && rank1(INW(st), qr.from) + 1 < nN(st)
 //@   ensures 0 <= result && int(result) < nN(st) && bitat(NTW(st), result) == 0
